@@ -25,6 +25,8 @@ pub struct Prog {
     pub readers: usize,
     /// percentage of calls that are `reserve(1..=8)` (not part of the per-key histories)
     pub reserve_pct: u64,
+    /// parks return spuriously with probability 1/n (0 = never)
+    pub spurious_one_in: u64,
     pub seed: u64,
 }
 
@@ -40,12 +42,13 @@ impl Prog {
             .with("switch_one_in", Json::u(self.switch_den))
             .with("pure_readers", Json::u(self.readers))
             .with("reserve_percent", Json::u(self.reserve_pct))
+            .with("spurious_wakeup_one_in", Json::u(self.spurious_one_in))
             .with("program_seed", Json::u(self.seed))
     }
 }
 
 pub fn draw(rng: &mut Rng) -> Prog {
-    let shape = rng.below(8);
+    let shape = rng.below(10);
     let mut p = Prog {
         mode: *rng.pick(&[UNIFORM, IDENTITY, CONSTANT, SAMEBIN, MIXED]),
         cap: *rng.pick(&[0usize, 1, 2, 16, 64]),
@@ -56,6 +59,7 @@ pub fn draw(rng: &mut Rng) -> Prog {
         switch_den: *rng.pick(&[2u64, 3, 4, 8]),
         readers: 0,
         reserve_pct: 0,
+        spurious_one_in: 0,
         seed: rng.next(),
     };
     match shape {
@@ -67,6 +71,7 @@ pub fn draw(rng: &mut Rng) -> Prog {
             p.prefill = rng.range(7, 12);
             p.readers = rng.range(0, 2) as usize;
             p.threads = p.threads.max(p.readers + 1);
+            p.spurious_one_in = *rng.pick(&[0u64, 0, 2, 3]);
         }
         2 => {
             // growth from a tiny table
@@ -76,6 +81,18 @@ pub fn draw(rng: &mut Rng) -> Prog {
             p.prefill = 0;
             p.ops = rng.range(5, 12) as usize;
             p.reserve_pct = *rng.pick(&[0u64, 0, 10]);
+        }
+        8 | 9 => {
+            // two readers inside a tree bin, writers that need the root lock, parks that may return spuriously
+            p.mode = *rng.pick(&[CONSTANT, SAMEBIN, MIXED, MODGROUPS]);
+            p.cap = 64;
+            p.nkeys = rng.range(10, 14);
+            p.prefill = rng.range(9, 12);
+            p.readers = 2;
+            p.threads = rng.range(3, 4) as usize;
+            p.ops = rng.range(3, 6) as usize;
+            p.spurious_one_in = *rng.pick(&[1u64, 2, 2, 3]);
+            p.switch_den = *rng.pick(&[1u64, 2, 2, 3]);
         }
         6 | 7 => {
             // the race for the lazily created table: first inserts against small reserves
@@ -115,6 +132,7 @@ fn execute(p: &Prog, sched_seed: u64, replay: Option<Vec<u8>>) -> Run {
     }
     let hist: Arc<Mutex<Vec<Ev>>> = Arc::new(Mutex::new(Vec::new()));
     let (m, h, pp) = (map.clone(), hist.clone(), p.clone());
+    serial::set_spurious_wakeups(p.spurious_one_in);
     let res = serial::run(p.threads, sched_seed, p.switch_den, 400_000, replay, move |t| {
         let mut rng = Rng::derive(pp.seed, t as u64, 7);
         let mut evs = Vec::new();
@@ -227,6 +245,7 @@ pub fn run(ctx: &Ctx, prop: &str) -> Outcome {
         out.add("token_switches", r.res.switches);
         out.add("lock_waits_modelled", r.res.lock_waits);
         out.add("parks_modelled", r.res.parks);
+        out.add("spurious_wakeups_injected", r.res.spurious);
         out.distinct.insert(r.res.trace_hash);
         let replay = |v: &serial::RunResult| {
             Json::obj()
